@@ -12,6 +12,12 @@ CHECKS = {
  "C03": ("differential runtime monitor: DOM walked through the public read API against an independent reference parse tree (order, duplicates, strings, number classes bit-exact); whole-input, embedded, Vec and stream drivers; default/rawnumber/lossy configs; ASan + arbitrary_precision builds",
          "Exploration over seeded generated documents (incl. duplicate keys), all valid token sequences up to 4 tokens, the repository's corpus files under blank-prefix alignments and documents above the thread-local node-buffer threshold.",
          "Trusted: harness recogniser + Rust std float parsing as number oracle (literal -0 may be I64(0) or F64(-0.0))."),
+ "C05": ("runtime monitor: serde_json as executable model (structural comparison through an independent recogniser), specification escaper and re-indenter, byte equality across 14 writers, failing/short-writing writers at every byte, PROT_NONE guard pages behind strings (release over-read path), ASan",
+         "Exploration: strings of every length 0..200 (thorough: to 4200 around block/page multiples) with each special-character class at every position, random Unicode texts, and values generated through the whole serde::Serializer surface (all integer widths, f32/f64 incl. non-finite, char, bytes, options, tuples, structs, four enum shapes, maps with non-string keys).",
+         "Trusted: serde_json's serializer as the value model, harness escaper/re-indenter/recogniser, mmap/mprotect. Float map keys are not generated (their spelling is not fixed by the property)."),
+ "C09": ("differential runtime monitor: independent strict and lossy string decoders as oracle over 16 decoders (in-place, copying, borrowing, key, map-key, lazy, iterator key) x {strict, utf8_lossy}; Cow variant / &str success observed for borrowed-ness; ASan",
+         "Exploration: all 1,114,112 code points through \\u escapes (exhaustive, batched), all 2048 unpaired surrogates, 23 byte classes (escapes, multi-byte, malformed) on a position x length x start-offset grid (sampled; denser in thorough), random literals with injected defects.",
+         "Trusted: harness decoders (strict decoder cross-checked against serde_json in the selftest). For literals that are not one string token, lossy Deserializer::deserialize (which ignores what follows the first token) carries no expectation except UTF-8 validity."),
  "C02": ("differential runtime monitor: independent RFC 8259 recogniser as accept/reject oracle over enumerated token sequences and mutated documents; ASan build",
          "Exploration: every listed entry point x carrier is executed on all token sequences up to the bound and on seeded generated/mutated documents; an independent recogniser decides what must be accepted. Held on the cases observed, not a proof over all byte strings.",
          "Trusted: the harness recogniser (cross-checked against serde_json), rustc, ASan runtime. Depth is capped at 64 so the permitted nesting-limit rejection never explains a verdict."),
